@@ -3,7 +3,7 @@
    used for the core fragment.  Cnl/Core.v: the core fragment F0, its compile model (byte-exact on F0), grounding, and the reading. *)
 Require Import Coq.Strings.String Coq.Lists.List Coq.Bool.Bool.
 Require Import Coq.ZArith.ZArith Lia.
-Require Import Cnl2aspV.Asp.Ground Cnl2aspV.Cnl.Core Cnl2aspV.Cnl.CoreProofs Cnl2aspV.Cnl.CoreOneOf Cnl2aspV.Cnl.CoreDef Cnl2aspV.Cnl.CoreChoice Cnl2aspV.Cnl.CoreWhere Cnl2aspV.Cnl.Comparison.
+Require Import Cnl2aspV.Asp.Ground Cnl2aspV.Cnl.Core Cnl2aspV.Cnl.CoreProofs Cnl2aspV.Cnl.CoreOneOf Cnl2aspV.Cnl.CoreDef Cnl2aspV.Cnl.CoreChoice Cnl2aspV.Cnl.CoreWhere Cnl2aspV.Cnl.Comparison Cnl2aspV.Cnl.CoreProgram.
 Import ListNotations.
 
 (* for hierarchical ground programs (no predicate depends on itself): I is a stable model iff it satisfies the constraints and
@@ -197,3 +197,45 @@ Example C01_where_example :
   r_sentence s (("link(1,2)" :: base)%string) x = true /\ r_sentence s (("link(2,1)" :: base)%string) x = false /\
   print_program (compile_sentence s x) = (":- node(X), link(X,Y), node(Y), X > Y." ++ Str.nl)%string.
 Proof. vm_compute. repeat split. tauto. Qed.
+
+(* WHOLE specifications of the core fragment, any number of concepts and sentences, over the specification's own universe: the
+   constraint-and-bounds part of stability of the ground program (every ground constraint and every cardinality bound of
+   Asp/Ground.v: bounds_ok) holds in I exactly when I meets the reading of every constraint and choice sentence -- for the
+   sentence kinds with an end-to-end theorem (named instances, single-clause constraints with or without a 'where' comparison,
+   choice sentences without for-each; derived definitions may be present, they contribute no constraint), and every
+   interpretation that holds exactly the declared values of the declared concepts.  With C01_hierarchical_stable
+   (stable = bounds + closed + supported) and C01_single_clause_definition_partial (closed + supported for a definition) what is
+   left of the full statement is supportedness of the chosen atoms and the concept facts.  Partial. *)
+Theorem C01_program_constraints_and_bounds_partial :
+  forall (s : spec) (I : interp),
+    (forall n, declared s n -> forall x, In x (universe s) -> holds I (atom_text n [x]) = Util.mem_string x (dom_of s n)) ->
+    (forall x, In x (sentences s) -> covered s x) ->
+    forallb (bounds_ok I) (ground s) = forallb (r_bounds s I) (sentences s).
+Proof.
+  intros s I Hdom Hcov. unfold ground.
+  exact (program_bounds s (universe s) I Hdom (universe_incl s) (universe_NoDup s) Hcov).
+Qed.
+Print Assumptions C01_program_constraints_and_bounds_partial.
+
+(* non-vacuity: a specification with a choice, a definition, a constraint with 'where' and a named-instance requirement is
+   covered, and an interpretation meeting the hypothesis is admitted by both sides *)
+Example C01_program_example :
+  let host := {| v_word := "host"; v_copula := false; v_prep := None |} in
+  let cl := {| cl_subj := "room"; cl_slabel := "R"; cl_neg := false; cl_verb := host; cl_obj := "shelf"; cl_olabel := "S" |} in
+  let s := {| concepts := [{| c_name := "room"; c_key := "id"; c_dom := DRange 1 2 |}; {| c_name := "shelf"; c_key := "id"; c_dom := DRange 1 2 |}];
+              sentences := [SChoice {| ch_subj := "room"; ch_slabel := None; ch_verb := host; ch_card := CAtMost 1; ch_obj := "shelf";
+                                       ch_olabel := None; ch_foreach := None |};
+                            SDef "room" "R" "busy" [cl];
+                            SCons false [] [cl] (Some {| w_left := "R"; w_phrase := "greater than"; w_right := "S" |});
+                            SThere true false host "1" "2"] |} in
+  let I := ["room(1)"; "room(2)"; "shelf(1)"; "shelf(2)"; "host(1,2)"; "busy(1)"]%string in
+  (forall x, In x (sentences s) -> covered s x) /\
+  forallb (fun n => forallb (fun x => Bool.eqb (holds I (atom_text n [x])) (Util.mem_string x (dom_of s n))) (universe s)) (concept_names s) = true /\
+  forallb (bounds_ok I) (ground s) = true /\ forallb (r_bounds s I) (sentences s) = true /\
+  forallb (r_bounds s ("host(2,1)" :: I)%string) (sentences s) = false.
+Proof.
+  cbv zeta. split; [|vm_compute; repeat split].
+  intros x [<-|[<-|[<-|[<-|[]]]]]; cbn [covered]; unfold declared, concept_names; cbn [map concepts c_name In];
+    repeat split; try discriminate; try (vm_compute; tauto); auto.
+  vm_compute. repeat constructor; cbn; intuition discriminate.
+Qed.
